@@ -41,7 +41,9 @@ impl Mode {
             },
         };
 
-        if n > self.max_length() {
+        // max_length() is in bytes, so it has to be compared with the length in bytes, not with the
+        // (possibly divided by 4) value of the size byte, otherwise the size byte silently wraps
+        if len > self.max_length() {
             // probably a programming error. lets bail.
             panic!(
                 "Provided length would overflow the maximum byte size of {}.
